@@ -11,9 +11,11 @@ namespace Memterm
 def isHexStr (s : List Nat) : Bool :=
   s.length ≥ 6 && s.all (fun c => (48 ≤ c && c ≤ 57) || (97 ≤ c && c ≤ 102))
 
-/-- documented colour names: the values of the regenerated tables + "default" -/
+/-- documented colour names (written out, not taken from the regenerated tables): the eight ANSI
+    names, their aixterm `bright` variants, and `default` -/
 def colourNames : List (List Nat) :=
-  strDefault :: ((Gen.FG_ANSI ++ Gen.BG_ANSI ++ Gen.FG_AIXTERM ++ Gen.BG_AIXTERM).map (·.2))
+  let base := ["black", "red", "green", "brown", "blue", "magenta", "cyan", "white"]
+  (("default" :: base ++ base.map ("bright" ++ ·)).map (fun s => s.toList.map Char.toNat))
 
 def colourOk (s : List Nat) : Bool := colourNames.contains s || isHexStr s
 
